@@ -78,7 +78,12 @@ def run_property(pid, tier, seed, only=None):
         if r.verdict == "proved":
             continue
         if r.verdict == "refuted":
-            (known_hit if r.name in open_findings else violations).append(r)
+            f = open_findings.get(r.name)
+            # an open finding suppresses exactly the listed failure: same obligation AND (where given) the same symptom
+            if f is not None and (not f.get("detail_contains") or f["detail_contains"] in r.detail):
+                known_hit.append(r)
+            else:
+                violations.append(r)
         elif r.verdict == "crash":
             crashes.append(r)
         else:
